@@ -142,7 +142,8 @@ def verifyAnyQC (E : CertEnv) (aggEnabled : Bool) (blockQC : QC) (agg : Option A
       | .panic => .panic
       | .reject => .reject
       | .ok high =>
-        if !blockQC.equals high then .reject
+        -- `fix:` 7d9bd97 — what the two certify is compared, not the signatures
+        if !(blockQC.view == high.view && blockQC.hash == high.hash) then .reject
         else if verifyQC E blockQC then .ok () else .reject
   | none => if verifyQC E blockQC then .ok () else .reject
 
